@@ -557,7 +557,8 @@ void body(V::Ctx &ctx)
         plans.push_back({2, 2, few, 2, false, 1});
         plans.push_back({3, 1, "axbrduv", 2, false, 1});
     }
-    const char *only = getenv("C55_ONLY_PLAN");          // measurement aid
+    const char *only = getenv("C55_ONLY_PLAN");          // measurement aids
+    const char *onlyScenario = getenv("C55_ONLY_SCENARIO");
 
     int planNo = -1;
     for (const auto &plan : plans) {
@@ -576,6 +577,7 @@ void body(V::Ctx &ctx)
                 for (int i = 0; i < plan.threads; ++i) name += " p" + std::to_string(i) + "=" + scripts[idx[i]];
                 name += " bound=" + std::to_string(plan.bound);
                 if (plan.afterPoints) name += " fine";
+                if (onlyScenario && name.find(onlyScenario) == std::string::npos) return;
                 std::string replaySched;
                 if (ctx.replay) {
                     const auto bar = ctx.replayCase.find('|');
